@@ -3,7 +3,7 @@ import struct
 
 from hypothesis import strategies as st
 
-from harness import build, gen, simnet, wire, httpref
+from harness import deflateref, build, gen, simnet, wire, httpref
 from harness.runner import Prop, Enumeration, held, failed, inconclusive
 from props.c01 import effective_seg, compare_events
 
@@ -80,6 +80,10 @@ class C08(Prop):
             "close_timeout": st.sampled_from([None, None, 0, 30.0]),
             # the write that carries the client's Close frame (its own or the echo) fails without breaking the transport
             "close_write_fault": st.sampled_from([None, None, None, "timeout", "oserror"]),
+            # over TLS (the socket is then unwrapped / closed through the TLS layer) and with permessage-deflate negotiated
+            # (the application's sends go through the compressor)
+            "tls": gen.weighted([(3, st.just(False)), (1, st.just(True))]),
+            "deflate": gen.deflate_opt(),
             # an earlier connection in the same process (same WebSocket object or another one) and how it ended
             "prelude": gen.prelude(),
             # a second live connection in the same process (interleaved with this one, or blocked in a send)
@@ -126,7 +130,18 @@ class C08(Prop):
                         for eof in ("after_pause", "at_once"):
                             for sends in ([], [send]):
                                 yield dict(b, close_write_fault=how, close_timeout=ct, eof=eof, sends=sends)
-        return [Enumeration("closing_handshakes_after_every_kind_of_earlier_connection", after_every_prelude,
+        def transports():
+            send = {"when": ["every"], "do": [SEND_ACTIONS[0]]}
+            for b in small + [dict(base, mode="client_only", server_close={"kind": "close", "code": 1000, "reason": ""})]:
+                for tls in (False, True):
+                    for deflate in (False, True, {"sb": 9, "cb": 9, "snct": True, "cnct": True}):
+                        if not tls and not deflate:
+                            continue
+                        for sends in ([], [send]):
+                            for eof in ("after_pause", "at_once"):
+                                yield dict(b, tls=tls, deflate=deflate, sends=sends, eof=eof)
+        return [Enumeration("closing_handshakes_over_tls_and_with_deflate", transports, exhaustive=True),
+                Enumeration("closing_handshakes_after_every_kind_of_earlier_connection", after_every_prelude,
                             exhaustive=True), with_noise(small), with_companion(small), with_debug_log(small),
                 Enumeration("the_close_frame_cannot_be_written", close_write_fails, exhaustive=True)]
 
@@ -166,14 +181,15 @@ class C08(Prop):
             reactions.append(r)
         reply_len = len(httpref.build_reply(None, b""))
         seg = effective_seg(case["seg"], reply_len + len(pre.data) + len(mid.data) + 140)
-        script = [["wait_request"], ["stream", [["reply", None], ["bytes", bytes(pre.data)]], seg, 0.0]]
+        reply = httpref.canonical_spec(extensions=[deflateref.header_of(case["deflate"])]) if case.get("deflate") else None
+        script = [["wait_request"], ["stream", [["reply", reply], ["bytes", bytes(pre.data)]], seg, 0.0]]
         eof = case["eof"]
         cwf = case.get("close_write_fault")
         if cwf and eof == "never":
             eof = "after_pause"
         if crossing:
             whole = bytes(pre.data) + bytes(mid.data) + bytes(sc_built.data)
-            script = [["wait_request"], ["stream", [["reply", None], ["bytes", whole]], case["seg"] if case["seg"] in (
+            script = [["wait_request"], ["stream", [["reply", reply], ["bytes", whole]], case["seg"] if case["seg"] in (
                 "whole", "bytewise") else "whole", 0.0]]
         elif mode == "client_first":
             # (a Close frame that could not be written never reaches the server: it then closes on its own account)
@@ -193,7 +209,9 @@ class C08(Prop):
             script.append(["eof", 0.0])
         scn = build.scenario(script, reactions=reactions, horizon=500.0,
                              connect_opts={"close_timeout": case.get("close_timeout"), "ping_rate": 0},
-                             attempt_extra={"faults": {"send_close": cwf}} if cwf else None)
+                             attempt_extra={"faults": {"send_close": cwf}} if cwf else None,
+                             ws_opts={"compress": True} if case.get("deflate") else None,
+                             **({"url": "wss://example.test/"} if case.get("tls") else {}))
         tr = simnet.run_scenario(scn)
         names = tr.names()
         labels = {"mode:" + ("crossing" if crossing else mode), "eof:" + eof, "close_timeout:%r" % (case.get("close_timeout"),)}
